@@ -1,6 +1,426 @@
-(* C13 proofs *)
+(* C13 proofs.
+     A. the arena around a buffer,
+     B. every in-memory adapter agrees with the documented std operation on every state,
+     C. the default exact loops over ANY OS oracle agree with std's provided read_exact / write_all,
+     D. the two oracle instances never interrupt: their loops terminate within the fuel used,
+     E. one step, histories (induction over the operation list), the checker on the model. *)
 From VM Require Import Prelude.MachInt Prelude.Outcome Prelude.Tok Prelude.C1314List Impl.Io Impl.Std Spec.C13 Suite.C13.
 
-Lemma std_slice_read_count_lemma : forall st len,
-  snd (std_slice_read st len) = Ok (N.min len (nlen (slice_rem st))).
-Proof. intros. unfold std_slice_read. cbn [snd]. rewrite nlen_ntake. reflexivity. Qed.
+(* ------------------------------------------------------------------ A. arena *)
+Definition Cm : list N := repeat canary (N.to_nat margin).
+Lemma arena_eq b : arena b = Cm ++ b ++ Cm.
+Proof. reflexivity. Qed.
+Lemma nlen_Cm : nlen Cm = margin.
+Proof. reflexivity. Qed.
+Lemma nlen_arena b : nlen (arena b) = margin + nlen b + margin.
+Proof. rewrite arena_eq, !nlen_app, nlen_Cm. lia. Qed.
+Lemma ndrop_margin X : ndrop margin (Cm ++ X) = X.
+Proof. exact (ndrop_app_exact Cm X). Qed.
+Lemma ntake_margin X : ntake margin (Cm ++ X) = Cm.
+Proof. exact (ntake_app_exact Cm X). Qed.
+
+Lemma arena_write_at b off bs : off + nlen bs <= nlen b ->
+  mem_write (arena b) (margin + off) bs = arena (mem_write b off bs).
+Proof.
+  intros H. unfold mem_write. rewrite !arena_eq.
+  rewrite (ntake_app_ge (margin + off) Cm) by (rewrite nlen_Cm; lia). rewrite nlen_Cm.
+  replace (margin + off - margin) with off by lia.
+  rewrite (ntake_app_le off b Cm) by lia.
+  rewrite (ndrop_app_ge (margin + off + nlen bs) Cm) by (rewrite nlen_Cm; lia). rewrite nlen_Cm.
+  replace (margin + off + nlen bs - margin) with (off + nlen bs) by lia.
+  rewrite (ndrop_app_le (off + nlen bs) b Cm) by lia.
+  rewrite <- !app_assoc. reflexivity.
+Qed.
+Lemma mem_write_0 (b bs : list N) : mem_write b 0 bs = bs ++ ndrop (nlen bs) b.
+Proof. unfold mem_write. rewrite ntake_0, N.add_0_l. reflexivity. Qed.
+Lemma arena_write b bs : nlen bs <= nlen b -> mem_write (arena b) margin bs = arena (bs ++ ndrop (nlen bs) b).
+Proof.
+  intros H. rewrite <- mem_write_0. rewrite <- arena_write_at by lia. reflexivity.
+Qed.
+Lemma arena_read_at b off n : off + n <= nlen b -> mem_read (arena b) (margin + off) n = mem_read b off n.
+Proof.
+  intros H. unfold mem_read. rewrite arena_eq.
+  rewrite (ndrop_app_ge (margin + off) Cm) by (rewrite nlen_Cm; lia). rewrite nlen_Cm.
+  replace (margin + off - margin) with off by lia.
+  rewrite (ndrop_app_le off b Cm) by lia. rewrite ntake_app_le; [reflexivity|]. rewrite nlen_ndrop. lia.
+Qed.
+Lemma arena_read b n : n <= nlen b -> mem_read (arena b) margin n = ntake n b.
+Proof.
+  intros H. change (mem_read (arena b) margin n) with (mem_read (arena b) (margin + 0) n).
+  rewrite arena_read_at by lia.
+  unfold mem_read. rewrite ndrop_0. reflexivity.
+Qed.
+Lemma arena_read_all b : mem_read (arena b) margin (nlen b) = b.
+Proof. rewrite arena_read by lia. apply ntake_all. lia. Qed.
+Lemma margins_ok_arena b b' : nlen b' = nlen b -> margins_ok b (arena b') = true.
+Proof.
+  intros H. unfold margins_ok. rewrite arena_eq, ntake_margin.
+  rewrite (ndrop_app_ge (margin + nlen b) Cm) by (rewrite nlen_Cm; lia). rewrite nlen_Cm.
+  replace (margin + nlen b - margin) with (nlen b') by lia. rewrite ndrop_app_exact.
+  apply andb_true_iff. split; apply list_eqb_eq; reflexivity.
+Qed.
+Lemma nlen_write_prefix (b bs : list N) : nlen bs <= nlen b -> nlen (bs ++ ndrop (nlen bs) b) = nlen b.
+Proof. intros H. rewrite nlen_app, nlen_ndrop. lia. Qed.
+
+(* ------------------------------------------------------------------ B. in-memory adapters *)
+(* the adapter moved what std moves: same code, same stream, buffer = std's bytes then the old tail *)
+Definition Agree (o : op13) (vm : outcome ((sstate * list N) * (N * N)))
+  (sd : outcome (option sstate * list N * (N * N))) : Prop :=
+  exists st' b' rc ost bs, vm = Val ((st', arena b'), rc) /\ sd = Val (ost, bs, rc)
+    /\ nlen b' = nlen (op_buf o)
+    /\ (rc_success rc = true ->
+          ost = Some st' /\ nlen bs <= nlen (op_buf o)
+          /\ (is_read o = true -> b' = bs ++ ndrop (nlen bs) (op_buf o)))
+    /\ (rc_success rc = false -> ost = None)
+    /\ (is_read o = false -> b' = op_buf o).
+
+Lemma ntake_min_len_r {A} a (l : list A) : ntake (N.min a (nlen l)) l = ntake a l.
+Proof.
+  destruct (N.le_ge_cases a (nlen l)) as [H|H].
+  - rewrite N.min_l by lia. reflexivity.
+  - rewrite N.min_r by lia. rewrite !ntake_all by lia. reflexivity.
+Qed.
+
+(* value of the two slice adapters on any memory / window *)
+Lemma slice_read_volatile_val st m v :
+  let total := N.min (vs_len v) (nlen (slice_rem st)) in
+  slice_read_volatile st m v =
+  Val ((set_pos st (s_pos st + total), mem_write m (vs_off v) (ntake total (slice_rem st))), Ok total).
+Proof.
+  intros total. unfold slice_read_volatile, copy_to_volatile_slice, passert. fold total.
+  destruct (N.leb_spec total (nlen (slice_rem st))) as [_|Hbad]; [reflexivity|unfold total in Hbad; lia].
+Qed.
+Lemma mslice_write_volatile_val st m v :
+  let total := N.min (vs_len v) (nlen (slice_rem st)) in
+  mslice_write_volatile st m v =
+  Val (({| s_data := mem_write (s_data st) (s_pos st) (mem_read m (vs_off v) total);
+           s_pos := s_pos st + total; s_out := s_out st |}, m), Ok total).
+Proof.
+  intros total. unfold mslice_write_volatile, copy_from_volatile_slice, passert. fold total.
+  destruct (N.leb_spec total (nlen (slice_rem st))) as [_|Hbad]; [reflexivity|unfold total in Hbad; lia].
+Qed.
+
+Ltac agree_tail := cbn [op_buf is_read].
+
+Lemma agree_slice_read md st pre :
+  Agree (ORead pre) (vm_step md KSliceR st (ORead pre)) (std_step KSliceR st (ORead pre)).
+Proof.
+  unfold vm_step, std_step, lift_n, std_slice_read. cbn [op_buf]. rewrite slice_read_volatile_val.
+  cbn [win vs_len vs_off omap fst snd rc_n].
+  set (rem := slice_rem st). set (len := nlen pre). set (total := N.min len (nlen rem)).
+  assert (Hb : ntake total rem = ntake len rem) by apply ntake_min_len_r.
+  assert (Hn : nlen (ntake len rem) = total) by (rewrite nlen_ntake; reflexivity).
+  rewrite Hb. rewrite arena_write by (rewrite Hn; unfold total, len; lia).
+  assert (Hle : nlen (ntake len rem) <= nlen pre) by (rewrite Hn; unfold total, len; lia).
+  clearbody total. subst total.
+  eexists _, _, _, _, _. split; [reflexivity|]. split; [reflexivity|]. agree_tail.
+  split; [apply nlen_write_prefix; exact Hle|].
+  split; [|split; [discriminate|discriminate]].
+  intros _. split; [reflexivity|]. split; [exact Hle|reflexivity].
+Qed.
+
+Lemma agree_slice_read_exact md st pre :
+  Agree (OReadExact pre) (vm_step md KSliceR st (OReadExact pre)) (std_step KSliceR st (OReadExact pre)).
+Proof.
+  unfold vm_step, std_step, lift_u, std_slice_read_exact, slice_read_exact_volatile. cbn [op_buf win vs_len].
+  set (rem := slice_rem st). set (len := nlen pre).
+  destruct (N.ltb_spec (nlen rem) len) as [Hlt|Hge].
+  - destruct (N.leb_spec len (nlen rem)); [lia|]. cbn [omap fst snd rc_unit rc_verr rc_ioerr].
+    eexists _, _, _, _, _. split; [reflexivity|]. split; [reflexivity|]. agree_tail.
+    split; [reflexivity|]. split; [discriminate|]. split; [reflexivity|discriminate].
+  - destruct (N.leb_spec len (nlen rem)); [|lia].
+    rewrite slice_read_volatile_val. cbn [win vs_len vs_off bind omap fst snd rc_unit].
+    fold rem. fold len. replace (N.min len (nlen rem)) with len by lia.
+    assert (Hn : nlen (ntake len rem) = len) by (rewrite nlen_ntake; lia).
+    rewrite arena_write by (rewrite Hn; unfold len; lia).
+    assert (Hle : nlen (ntake len rem) <= nlen pre) by (rewrite Hn; unfold len; lia).
+    eexists _, _, _, _, _. split; [reflexivity|]. split; [reflexivity|]. agree_tail.
+    split; [apply nlen_write_prefix; exact Hle|].
+    split; [|split; [discriminate|discriminate]].
+    intros _. split; [reflexivity|]. split; [exact Hle|reflexivity].
+Qed.
+
+Lemma agree_mslice_write md st d :
+  Agree (OWrite d) (vm_step md KSliceW st (OWrite d)) (std_step KSliceW st (OWrite d)).
+Proof.
+  unfold vm_step, std_step, lift_n, std_mslice_write. cbn [op_buf]. rewrite mslice_write_volatile_val.
+  cbn [win vs_len vs_off omap fst snd rc_n].
+  set (rem := slice_rem st). set (total := N.min (nlen d) (nlen rem)).
+  rewrite arena_read by (unfold total; lia).
+  assert (Hb : ntake total d = ntake (nlen rem) d).
+  { unfold total. rewrite N.min_comm. apply ntake_min_len_r. }
+  assert (Hn : nlen (ntake (nlen rem) d) = total) by (rewrite nlen_ntake; unfold total; lia).
+  rewrite Hb, Hn. unfold with_data.
+  eexists _, _, _, _, _. split; [reflexivity|]. split; [reflexivity|]. agree_tail.
+  split; [reflexivity|]. split; [|split; [discriminate|reflexivity]].
+  intros _. split; [reflexivity|]. split; [cbn; lia|discriminate].
+Qed.
+
+Lemma agree_mslice_write_all md st d :
+  Agree (OWriteAll d) (vm_step md KSliceW st (OWriteAll d)) (std_step KSliceW st (OWriteAll d)).
+Proof.
+  unfold vm_step, std_step, lift_u, std_mslice_write_all, mslice_write_all_volatile. cbn [op_buf].
+  rewrite mslice_write_volatile_val. cbn [win vs_len vs_off bind].
+  set (rem := slice_rem st). set (total := N.min (nlen d) (nlen rem)).
+  rewrite arena_read by (unfold total; lia).
+  destruct (N.leb_spec (nlen d) (nlen rem)) as [Hle|Hgt].
+  - replace total with (nlen d) by (unfold total; lia). rewrite N.eqb_refl. rewrite ntake_all by lia.
+    cbn [omap fst snd rc_unit]. unfold with_data.
+    eexists _, _, _, _, _. split; [reflexivity|]. split; [reflexivity|]. agree_tail.
+    split; [reflexivity|]. split; [|split; [discriminate|reflexivity]].
+    intros _. split; [reflexivity|]. split; [cbn; lia|discriminate].
+  - destruct (N.eqb_spec total (nlen d)) as [Hbad|_]; [unfold total in Hbad; lia|].
+    cbn [omap fst snd rc_unit rc_verr rc_ioerr].
+    eexists _, _, _, _, _. split; [reflexivity|]. split; [reflexivity|]. agree_tail.
+    split; [reflexivity|]. split; [discriminate|]. split; [reflexivity|reflexivity].
+Qed.
+
+Lemma vs_offset_ok_c v n : vs_addr v + vs_len v < W64 -> n <= vs_len v ->
+  vs_offset v n = Ok {| vs_addr := vs_addr v + n; vs_off := vs_off v + n; vs_len := vs_len v - n |}.
+Proof.
+  intros Ha Hn. unfold vs_offset, checked_add, checked_sub.
+  destruct (N.ltb_spec (vs_addr v + n) W64); [|lia]. destruct (N.leb_spec n (vs_len v)); [|lia]. reflexivity.
+Qed.
+
+(* ---- Vec<u8> *)
+Lemma vec_write_volatile_val md st m v : nlen (s_data st) + vs_len v < W64 ->
+  vec_write_volatile md st m v =
+  Val (({| s_data := s_data st ++ mem_read m (vs_off v) (vs_len v); s_pos := s_pos st; s_out := s_out st |}, m),
+       Ok (vs_len v)).
+Proof.
+  intros H. unfold vec_write_volatile, copy_from_volatile_slice, passert. rewrite N.eqb_refl. cbn [bind].
+  rewrite padd_Val by exact H. reflexivity.
+Qed.
+
+Definition buf_ok (b : list N) : Prop := 4096 + margin + nlen b < W64.
+
+Lemma agree_vec_write md st d : nlen (s_data st) + nlen d < W64 ->
+  Agree (OWrite d) (vm_step md KVecW st (OWrite d)) (std_step KVecW st (OWrite d)).
+Proof.
+  intros H. unfold vm_step, std_step, lift_n, std_vec_write. cbn [op_buf].
+  rewrite vec_write_volatile_val by exact H. cbn [win vs_len vs_off omap fst snd rc_n].
+  rewrite arena_read_all. unfold with_data.
+  eexists _, _, _, _, _. split; [reflexivity|]. split; [reflexivity|]. agree_tail.
+  split; [reflexivity|]. split; [|split; [discriminate|reflexivity]].
+  intros _. split; [reflexivity|]. split; [cbn; lia|discriminate].
+Qed.
+
+(* first iteration of a default exact loop whose call answers Ok n at once *)
+Lemma exact_loop_step {S} zerr fi f (call : callT S) s m pb s' m' n :
+  vs_len pb <> 0 -> call s m pb = Val ((s', m'), Ok n) ->
+  exact_loop zerr (Datatypes.S fi) (Datatypes.S f) call s m pb =
+  if n =? 0 then Val ((s', m'), Err (VIo zerr))
+  else match vs_offset pb n with
+       | Ok pb' => exact_loop zerr (Datatypes.S fi) f call s' m' pb'
+       | Err e => Val ((s', m'), Err e)
+       end.
+Proof.
+  intros Hz Hc. cbn [exact_loop retry_eintr]. destruct (N.eqb_spec (vs_len pb) 0); [contradiction|].
+  rewrite Hc. cbn [bind]. reflexivity.
+Qed.
+Lemma exact_loop_done {S} zerr fi f (call : callT S) s m pb :
+  vs_len pb = 0 -> exact_loop zerr fi (Datatypes.S f) call s m pb = Val ((s, m), Ok tt).
+Proof. intros Hz. cbn [exact_loop]. rewrite Hz. reflexivity. Qed.
+
+Lemma win_offset0 b : buf_ok b ->
+  vs_offset (win b) 0 = Ok {| vs_addr := 4096 + margin + 0; vs_off := margin + 0; vs_len := nlen b - 0 |}.
+Proof.
+  intros H. unfold buf_ok in H. rewrite vs_offset_ok_c; [reflexivity| |]; cbn [win vs_addr vs_len]; lia.
+Qed.
+
+Lemma fuel_of_SS b : fuel_of b = Datatypes.S (Datatypes.S (N.to_nat (nlen b))).
+Proof. unfold fuel_of. lia. Qed.
+Lemma arena_read_win0 b : mem_read (arena b) (margin + 0) (nlen b - 0) = b.
+Proof.
+  rewrite N.sub_0_r, arena_read_at by lia. unfold mem_read. rewrite ndrop_0. apply ntake_all. lia.
+Qed.
+Lemma sstate_eta st : {| s_data := s_data st; s_pos := s_pos st; s_out := s_out st |} = st.
+Proof. destruct st; reflexivity. Qed.
+
+Lemma agree_vec_write_all md st d : nlen (s_data st) + nlen d < W64 -> buf_ok d ->
+  Agree (OWriteAll d) (vm_step md KVecW st (OWriteAll d)) (std_step KVecW st (OWriteAll d)).
+Proof.
+  intros H Hb. unfold vm_step, std_step, lift_u, std_vec_write, write_all_volatile, exact_volatile. cbn [op_buf].
+  rewrite (win_offset0 d Hb), fuel_of_SS.
+  set (pb0 := {| vs_addr := 4096 + margin + 0; vs_off := margin + 0; vs_len := nlen d - 0 |}).
+  destruct (N.eq_dec (nlen d) 0) as [Hz|Hz].
+  - rewrite exact_loop_done by (unfold pb0; cbn [vs_len]; lia). cbn [omap fst snd rc_unit].
+    apply nlen_zero in Hz. subst d. unfold with_data. rewrite app_nil_r, sstate_eta.
+    eexists _, _, _, _, _. split; [reflexivity|]. split; [reflexivity|]. agree_tail.
+    split; [reflexivity|]. split; [|split; [discriminate|reflexivity]].
+    intros _. split; [reflexivity|]. split; [cbn; lia|discriminate].
+  - rewrite (exact_loop_step _ _ _ _ _ _ _ _ _ (vs_len pb0))
+      by (first [unfold pb0; cbn [vs_len]; lia | apply vec_write_volatile_val; unfold pb0; cbn [vs_len]; lia]).
+    destruct (N.eqb_spec (vs_len pb0) 0) as [Hbad|_]; [unfold pb0 in Hbad; cbn [vs_len] in Hbad; lia|].
+    rewrite vs_offset_ok_c by (unfold pb0; cbn [vs_addr vs_len]; unfold buf_ok in Hb; lia).
+    rewrite exact_loop_done by (cbn [vs_len]; lia). cbn [omap fst snd rc_unit].
+    unfold pb0. cbn [vs_off vs_len]. rewrite arena_read_win0. unfold with_data.
+    eexists _, _, _, _, _. split; [reflexivity|]. split; [reflexivity|]. agree_tail.
+    split; [reflexivity|]. split; [|split; [discriminate|reflexivity]].
+    intros _. split; [reflexivity|]. split; [cbn; lia|discriminate].
+Qed.
+
+(* ---- Cursor *)
+Definition cur_ok (st : sstate) : Prop := s_pos st < W64 /\ nlen (s_data st) < W64.
+
+Lemma cursor_read_val md st m v : cur_ok st ->
+  let rem := ndrop (cur_start st) (s_data st) in
+  let total := N.min (vs_len v) (nlen rem) in
+  cursor_read_volatile md st m v =
+  Val ((set_pos st (s_pos st + total), mem_write m (vs_off v) (ntake total rem)), Ok total).
+Proof.
+  intros [Hp Hd] rem total. unfold cursor_read_volatile, passert. fold (cur_start st).
+  destruct (N.leb_spec (cur_start st) (nlen (s_data st))) as [_|Hbad]; [|unfold cur_start in Hbad; lia].
+  cbn [bind]. rewrite slice_read_volatile_val. unfold slice_rem. cbn [s_pos s_data bind]. rewrite ndrop_0.
+  fold rem. fold total.
+  assert (Hrem : nlen rem = nlen (s_data st) - cur_start st) by (unfold rem; apply nlen_ndrop).
+  rewrite padd_Val by (unfold total, cur_start in *; lia). reflexivity.
+Qed.
+Lemma cursor_read_exact_val md st m v : cur_ok st ->
+  let rem := ndrop (cur_start st) (s_data st) in
+  cursor_read_exact_volatile md st m v =
+  if nlen rem <? vs_len v then Val ((st, m), Err (VIo EUnexpectedEof))
+  else Val ((set_pos st (s_pos st + vs_len v), mem_write m (vs_off v) (ntake (vs_len v) rem)), Ok tt).
+Proof.
+  intros [Hp Hd] rem. unfold cursor_read_exact_volatile, passert. fold (cur_start st).
+  destruct (N.leb_spec (cur_start st) (nlen (s_data st))) as [_|Hbad]; [|unfold cur_start in Hbad; lia].
+  cbn [bind]. unfold slice_read_exact_volatile. rewrite slice_read_volatile_val.
+  unfold slice_rem. cbn [s_pos s_data]. rewrite ndrop_0. fold rem.
+  assert (Hrem : nlen rem = nlen (s_data st) - cur_start st) by (unfold rem; apply nlen_ndrop).
+  destruct (N.ltb_spec (nlen rem) (vs_len v)) as [Hlt|Hge]; cbn [bind]; [reflexivity|].
+  rewrite padd_Val by (unfold cur_start in *; lia). cbn [bind].
+  replace (N.min (vs_len v) (nlen rem)) with (vs_len v) by lia. reflexivity.
+Qed.
+Lemma cursor_write_val md st m v : cur_ok st ->
+  let start := cur_start st in
+  let total := N.min (vs_len v) (nlen (s_data st) - start) in
+  cursor_write_volatile md st m v =
+  Val (({| s_data := mem_write (s_data st) start (mem_read m (vs_off v) total);
+           s_pos := s_pos st + total; s_out := s_out st |}, m), Ok total).
+Proof.
+  intros [Hp Hd] start total. unfold cursor_write_volatile, passert. fold (cur_start st). fold start.
+  destruct (N.leb_spec start (nlen (s_data st))) as [Hs|Hbad]; [|unfold start, cur_start in Hbad; lia].
+  cbn [bind]. rewrite mslice_write_volatile_val. unfold slice_rem. cbn [s_pos s_data s_out bind].
+  rewrite ndrop_0, nlen_ndrop. fold total.
+  rewrite padd_Val by (unfold total, start, cur_start in *; lia). cbn [bind].
+  f_equal. f_equal. f_equal. f_equal.
+  set (bs := mem_read m (vs_off v) total).
+  assert (Hbs : nlen bs <= total) by (unfold bs, mem_read; rewrite nlen_ntake; lia).
+  rewrite mem_write_0. unfold mem_write. rewrite ndrop_ndrop. reflexivity.
+Qed.
+
+Lemma agree_cursor_read md st pre : cur_ok st ->
+  Agree (ORead pre) (vm_step md KCurR st (ORead pre)) (std_step KCurR st (ORead pre)).
+Proof.
+  intros Hc. unfold vm_step, std_step, lift_n, std_cursor_read. cbn [op_buf].
+  rewrite cursor_read_val by exact Hc. cbn [win vs_len vs_off omap fst snd rc_n].
+  set (rem := ndrop (cur_start st) (s_data st)). set (len := nlen pre). set (total := N.min len (nlen rem)).
+  assert (Hb : ntake total rem = ntake len rem) by apply ntake_min_len_r.
+  assert (Hn : nlen (ntake len rem) = total) by (rewrite nlen_ntake; reflexivity).
+  rewrite Hb. rewrite arena_write by (rewrite Hn; unfold total, len; lia).
+  assert (Hle : nlen (ntake len rem) <= nlen pre) by (rewrite Hn; unfold total, len; lia).
+  clearbody total. subst total.
+  eexists _, _, _, _, _. split; [reflexivity|]. split; [reflexivity|]. agree_tail.
+  split; [apply nlen_write_prefix; exact Hle|].
+  split; [|split; [discriminate|discriminate]].
+  intros _. split; [reflexivity|]. split; [exact Hle|reflexivity].
+Qed.
+
+Lemma agree_cursor_read_exact md st pre : cur_ok st ->
+  Agree (OReadExact pre) (vm_step md KCurR st (OReadExact pre)) (std_step KCurR st (OReadExact pre)).
+Proof.
+  intros Hc. unfold vm_step, std_step, lift_u, std_cursor_read_exact. cbn [op_buf].
+  rewrite cursor_read_exact_val by exact Hc. cbn [win vs_len vs_off].
+  set (rem := ndrop (cur_start st) (s_data st)). set (len := nlen pre).
+  assert (Hrem : nlen rem = nlen (s_data st) - cur_start st) by (unfold rem; apply nlen_ndrop).
+  destruct (N.ltb_spec (nlen rem) len) as [Hlt|Hge].
+  - destruct (N.leb_spec len (nlen (s_data st) - cur_start st)); [lia|].
+    cbn [omap fst snd rc_unit rc_verr rc_ioerr].
+    eexists _, _, _, _, _. split; [reflexivity|]. split; [reflexivity|]. agree_tail.
+    split; [reflexivity|]. split; [discriminate|]. split; [reflexivity|discriminate].
+  - destruct (N.leb_spec len (nlen (s_data st) - cur_start st)); [|lia].
+    cbn [omap fst snd rc_unit].
+    assert (Hn : nlen (ntake len rem) = len) by (rewrite nlen_ntake; lia).
+    rewrite arena_write by (rewrite Hn; unfold len; lia).
+    assert (Hle : nlen (ntake len rem) <= nlen pre) by (rewrite Hn; unfold len; lia).
+    eexists _, _, _, _, _. split; [reflexivity|]. split; [reflexivity|]. agree_tail.
+    split; [apply nlen_write_prefix; exact Hle|].
+    split; [|split; [discriminate|discriminate]].
+    intros _. split; [reflexivity|]. split; [exact Hle|reflexivity].
+Qed.
+
+Lemma agree_cursor_write md st d : cur_ok st ->
+  Agree (OWrite d) (vm_step md KCurW st (OWrite d)) (std_step KCurW st (OWrite d)).
+Proof.
+  intros Hc. unfold vm_step, std_step, lift_n, std_cursor_write. cbn [op_buf].
+  rewrite cursor_write_val by exact Hc. cbn [win vs_len vs_off omap fst snd rc_n].
+  set (room := nlen (s_data st) - cur_start st). set (total := N.min (nlen d) room).
+  rewrite arena_read by (unfold total; lia).
+  assert (Hb : ntake total d = ntake room d).
+  { unfold total. rewrite N.min_comm. apply ntake_min_len_r. }
+  assert (Hn : nlen (ntake room d) = total) by (rewrite nlen_ntake; unfold total; lia).
+  rewrite Hb. clearbody total. subst total. unfold with_data.
+  eexists _, _, _, _, _. split; [reflexivity|]. split; [reflexivity|]. agree_tail.
+  split; [reflexivity|]. split; [|split; [discriminate|reflexivity]].
+  intros _. split; [reflexivity|]. split; [cbn; lia|discriminate].
+Qed.
+
+Lemma agree_cursor_write_all md st d : cur_ok st -> buf_ok d ->
+  Agree (OWriteAll d) (vm_step md KCurW st (OWriteAll d)) (std_step KCurW st (OWriteAll d)).
+Proof.
+  intros Hc Hb. pose proof Hc as [Hp Hd].
+  unfold vm_step, std_step, lift_u, std_cursor_write_all, write_all_volatile, exact_volatile. cbn [op_buf].
+  rewrite (win_offset0 d Hb), fuel_of_SS.
+  set (pb0 := {| vs_addr := 4096 + margin + 0; vs_off := margin + 0; vs_len := nlen d - 0 |}).
+  set (room := nlen (s_data st) - cur_start st).
+  destruct (N.eq_dec (nlen d) 0) as [Hz|Hz].
+  - rewrite exact_loop_done by (unfold pb0; cbn [vs_len]; lia). cbn [omap fst snd rc_unit].
+    destruct (N.leb_spec (nlen d) room); [|lia].
+    apply nlen_zero in Hz. subst d. unfold with_data. rewrite mem_write_nil. cbn [nlen length N.of_nat].
+    rewrite N.add_0_r, sstate_eta.
+    eexists _, _, _, _, _. split; [reflexivity|]. split; [reflexivity|]. agree_tail.
+    split; [reflexivity|]. split; [|split; [discriminate|reflexivity]].
+    intros _. split; [reflexivity|]. split; [cbn; lia|discriminate].
+  - set (total1 := N.min (nlen d - 0) room).
+    rewrite (exact_loop_step _ _ _ _ _ _ _ _ _ total1)
+      by (first [unfold pb0; cbn [vs_len]; lia | apply (cursor_write_val md st (arena d) pb0 Hc)]).
+    destruct (N.eqb_spec total1 0) as [Ht0|Ht0].
+    + (* no room at all *)
+      destruct (N.leb_spec (nlen d) room); [unfold total1 in Ht0; lia|].
+      cbn [omap fst snd rc_unit rc_verr rc_ioerr].
+      eexists _, _, _, _, _. split; [reflexivity|]. split; [reflexivity|]. agree_tail.
+      split; [reflexivity|]. split; [discriminate|]. split; [reflexivity|reflexivity].
+    + rewrite vs_offset_ok_c
+        by (unfold pb0, total1; cbn [vs_addr vs_len]; unfold buf_ok in Hb; lia).
+      unfold pb0. cbn [vs_addr vs_off vs_len]. fold room. fold total1.
+      destruct (N.leb_spec (nlen d) room) as [Hfit|Hshort].
+      * (* everything fits *)
+        assert (Ht : total1 = nlen d) by (unfold total1; lia).
+        rewrite exact_loop_done by (cbn [vs_len]; lia). cbn [omap fst snd rc_unit].
+        rewrite Ht. replace (nlen d) with (nlen d - 0) at 1 by lia. rewrite arena_read_win0.
+        unfold with_data.
+        eexists _, _, _, _, _. split; [reflexivity|]. split; [reflexivity|]. agree_tail.
+        split; [reflexivity|]. split; [|split; [discriminate|reflexivity]].
+        intros _. split; [reflexivity|]. split; [cbn; lia|discriminate].
+      * (* a short write, then no room: WriteZero *)
+        assert (Ht : total1 = room) by (unfold total1; lia).
+        set (st1 := {| s_data := mem_write (s_data st) (cur_start st) (mem_read (arena d) (margin + 0) total1);
+                       s_pos := s_pos st + total1; s_out := s_out st |}).
+        assert (Hbs : nlen (mem_read (arena d) (margin + 0) total1) = total1).
+        { rewrite arena_read_at by lia. unfold mem_read. rewrite ndrop_0, nlen_ntake. lia. }
+        assert (Hl1 : nlen (s_data st1) = nlen (s_data st)).
+        { unfold st1. cbn [s_data]. apply mem_write_length. rewrite Hbs. unfold room, cur_start in *. lia. }
+        assert (Hc1 : cur_ok st1).
+        { unfold cur_ok. rewrite Hl1. unfold st1. cbn [s_pos]. unfold room, cur_start in *. split; lia. }
+        set (pb1 := {| vs_addr := 4096 + margin + 0 + total1; vs_off := margin + 0 + total1;
+                       vs_len := nlen d - 0 - total1 |}).
+        assert (Hnz : vs_len pb1 <> 0) by (unfold pb1; cbn [vs_len]; lia).
+        pose proof (cursor_write_val md st1 (arena d) pb1 Hc1) as Hcall. cbn zeta in Hcall.
+        replace (N.min (vs_len pb1) (nlen (s_data st1) - cur_start st1)) with 0 in Hcall.
+        2:{ rewrite Hl1. unfold cur_start. rewrite Hl1. unfold st1, pb1. cbn [s_pos vs_len].
+            unfold room, cur_start in *. lia. }
+        rewrite (exact_loop_step _ _ _ _ _ _ _ _ _ _ Hnz Hcall).
+        cbn [N.eqb omap fst snd rc_unit rc_verr rc_ioerr].
+        eexists _, _, _, _, _. split; [reflexivity|]. split; [reflexivity|]. agree_tail.
+        split; [reflexivity|]. split; [discriminate|]. split; [reflexivity|reflexivity].
+Qed.
